@@ -21,4 +21,4 @@ Separate Extraction
   Client.cstep Client.cs_init Client.new_call
   PoolFacts.src_step PoolFacts.src_init Pool.bound_ok Pool.no_strand_ok PoolFacts.src_cfg Listen.lrun Listen.linit
   Idl.try_from Idl.interface_name Format.format_src Json.utf8_enc
-  Gen.emitted Gen.generator_panics Gen.emitted_fn_names Gen.emitted_type_names.
+  Gen.emitted Gen.generator_panics Gen.emitted_fn_names Gen.emitted_type_names Gen.known_classes.
